@@ -76,10 +76,17 @@ func (o Op) String() string {
 	case OpImport:
 		var sb strings.Builder
 		for i, k := range o.Keys {
+			if i == 6 && len(o.Keys) > 8 {
+				fmt.Fprintf(&sb, " ... %d keys in all, last %q", len(o.Keys), o.Keys[len(o.Keys)-1])
+				break
+			}
 			fmt.Fprintf(&sb, " %q:{%q,%q,%d}", k, o.Vals[i].Simple, o.Vals[i].Children, o.Vals[i].Lease)
 		}
 		return "Import(" + sb.String() + " )"
 	case OpExport, OpRemoveKeys:
+		if len(o.Keys) > 8 {
+			return fmt.Sprintf("%s(%q ... %d keys in all, last %q)", o.Kind, o.Keys[:6], len(o.Keys), o.Keys[len(o.Keys)-1])
+		}
 		return fmt.Sprintf("%s(%q)", o.Kind, o.Keys)
 	case OpAcquire:
 		return fmt.Sprintf("Acquire(%q,%v)", o.Key, o.TTL)
